@@ -653,6 +653,65 @@ func (ev *SpecEnv) callExpr(x *ast.CallExpr) (Val, types.Type) {
 			ev.fail("ispow2 needs a constant argument: %s", exprString(x.Args[0]))
 		}
 		return Scalar{BoolC(c.Sign() > 0 && new(big.Int).And(c, new(big.Int).Sub(c, big.NewInt(1))).Sign() == 0)}, types.Typ[types.Bool]
+	case "tbl", "tblis", "tblhas":
+		// Dispatch tables (package-level map[string]struct{...}) as built by the real package initialisers:
+		// tblhas(table, key): the table has an entry for key; tbl(table, key, field): the value of an integer field of
+		// that entry; tblis(table, key, field, fn): a function-typed field of that entry holds the function fn
+		// (table is "pkg.Var", fn is "pkg.Func", both with the package's name, e.g. "interpreter.NewInt8Value...").
+		strArg := func(i int) string {
+			lit, ok := x.Args[i].(*ast.BasicLit)
+			if !ok || lit.Kind != token.STRING {
+				ev.fail("%s: argument %d must be a string literal", name, i+1)
+			}
+			s, _ := strconv.Unquote(lit.Value)
+			return s
+		}
+		lookup := func(suffix string) (string, bool) {
+			var hit string
+			n := 0
+			for k, v := range ev.ex.P.Consts {
+				if k == suffix || strings.HasSuffix(k, "/"+suffix) {
+					hit = v
+					n++
+				}
+			}
+			if n > 1 {
+				ev.fail("%s: ambiguous table entry %s", name, suffix)
+			}
+			return hit, n == 1
+		}
+		switch name {
+		case "tblhas":
+			need(2)
+			found := false
+			prefix := strArg(0) + "[" + strArg(1) + "]."
+			for k := range ev.ex.P.Consts {
+				if strings.HasPrefix(k, prefix) || strings.Contains(k, "/"+prefix) {
+					found = true
+				}
+			}
+			return Scalar{BoolC(found)}, types.Typ[types.Bool]
+		case "tbl":
+			need(3)
+			v, ok := lookup(strArg(0) + "[" + strArg(1) + "]." + strArg(2))
+			if !ok {
+				ev.fail("tbl: no entry %s[%s].%s among the dumped tables", strArg(0), strArg(1), strArg(2))
+			}
+			n, good := new(big.Int).SetString(v, 10)
+			if !good {
+				ev.fail("tbl: %s[%s].%s is not an integer: %s", strArg(0), strArg(1), strArg(2), v)
+			}
+			return UConst{n}, nil
+		default:
+			need(4)
+			v, ok := lookup(strArg(0) + "[" + strArg(1) + "]." + strArg(2))
+			if !ok {
+				return Scalar{False}, types.Typ[types.Bool]
+			}
+			want := strArg(3)
+			got := strings.TrimPrefix(v, "func:")
+			return Scalar{BoolC(got == want || strings.HasSuffix(got, "/"+want))}, types.Typ[types.Bool]
+		}
 	case "beval":
 		// beval(s): the unsigned big-endian value of byte slice s (uninterpreted over contents, offset, length)
 		need(1)
